@@ -594,6 +594,8 @@ class DBSessionContextManager(object):
                     local.db2cache.clear()
                     local.db_context_counter = 0
                     local.db_session = None
+                    local.user_groups_cache.clear()
+                    local.user_roles_cache.clear()
 
             gen = gen_func(*args, **kwargs)
             iterator = gen.__await__() if hasattr(gen, '__await__') else iter(gen)
